@@ -223,9 +223,35 @@ func init() {
 		Rule: "evaluations = seeded simulated runs. 'core-wrap' (metamorphic): every run executes the same configuration, workload, fates and relative times twice in one bubble - baseline (sn 0, core clock 0) and shifted (first sn X and Y per direction, clock offset C ms; drawn so that 2^32 or 2^31 falls before, at the first, inside or at the last segment/millisecond, or uniformly at random) - and compares the complete normalised datagram traces (every segment's cmd, frg, wnd, ts-C, sn-X, una-Y, len, payload hash; emission times) and the delivered data event by event; Mode K is exactly deterministic, so any difference is a violation. 'xfer/wrap': full sessions whose cores, core clock and FEC encoders start just before their wrap points, decided by the stream and wire oracles. 'fec-stream/wrap': the codec stream oracle with starting ids around the wrap value and 2^31. Non-trivial = payload was delivered and (a fault fired or a boundary was crossed); distinct = distinct event-log hashes",
 		Real: append([]string{"raw cores under both drivers (core-wrap)"}, realSession...), Stub: stubSession,
 		Assumptions: append([]string{"sn and ts of WASK/WINS segments are not compared: they carry no sequence number or timestamp of their own (the fields hold what the previously encoded segment left there and receivers ignore them)", "the clock shift is a whole number of milliseconds so that both passes truncate at the same sub-millisecond phase"}, assumeCommon...),
-		WantProbes: []string{"sn-boundary-crossed", "clock-boundary-crossed", "fec-id-wrap-crossed", "fec-id-wrapped"},
+		WantProbes:  []string{"sn-boundary-crossed", "clock-boundary-crossed", "fec-id-wrap-crossed", "fec-id-wrapped"},
 		nontrivial: func(r *proto.RunResult, nf int) bool {
 			return r.Progress && (nf > 0 || r.Probes["sn-boundary-crossed"]+r.Probes["clock-boundary-crossed"]+r.Probes["fec-id-wrap-crossed"]+r.Probes["fec-id-wrapped"] > 0)
+		},
+	}
+	plans["C13"] = &propPlan{
+		Level: "exploration",
+		Items: []planItem{
+			{Scenario: "block", Stratum: "", Quick: 1600, Thorough: 60000, PerJob: 8},
+		},
+		QuickBudget: 60 * time.Second, ThoroughBudget: 25 * time.Minute,
+		Rule: "evaluations = seeded simulated runs: 1-3 reader goroutines blocked on one session, 1-3 writer goroutines on its peer (small send window, so they block), 0-2 acceptors on the listener; 4-44 stimuli per run at seeded virtual instants: data arrival, window opening, SetReadDeadline / SetWriteDeadline / SetDeadline with none / past / near / far values in every order (the fired transition kinds none->set, set->later, set->earlier, set->none, none->past ... are counted), session Close, transport read/write errors, listener deadline changes, new peers, listener Close / transport error. After every step a reference model of a blocking endpoint is evaluated at quiescence: (1) no call may still be pending when data is readable, the window has had room for more than one update interval, its deadline has been reached, the session/listener is closed or the socket has reported an error; (2) every return is legal at its return time (timeout never before the deadline in force, errors only with a cause, messages intact and read exactly once); (3) after Close: Write fails, Read drains then fails, second Close errors. Non-trivial = messages were read and at least 3 stimuli fired; distinct = distinct event-log hashes",
+		Real: realSession, Stub: stubSession,
+		Assumptions: append([]string{"at quiescence every goroutine of the bubble is durably blocked, so 'still pending although enabled' is a missed wake-up and not a matter of timing", "a writer waiting for window is allowed one update interval + 1 ms (the weakest reading of 'never left unclaimed' that still has teeth)", "after Close the kind of error Read/Write report is not constrained", "stimuli are placed at their own instants (unique sub-microsecond residues): a deadline expiring in the very instant it is changed is not explored"}, assumeCommon...),
+		WantProbes:  []string{"read-deadline:none->set", "read-deadline:set->later", "read-deadline:set->earlier", "read-deadline:set->none", "write-deadline:none->set", "accept-deadline:none->set", "close", "transport-read-error", "transport-write-error", "listener-close", "Read-timeout", "Write-timeout", "accept-timeout", "drained-after-close"},
+		nontrivial:  func(r *proto.RunResult, nf int) bool { return r.Progress && nf >= 3 },
+	}
+	plans["C03"] = &propPlan{
+		Level: "exploration",
+		Items: []planItem{
+			{Scenario: "xfer", Stratum: "stall", Quick: 500, Thorough: 20000, PerJob: 4},
+		},
+		QuickBudget: 70 * time.Second, ThoroughBudget: 25 * time.Minute,
+		Rule: "evaluations = seeded simulated runs: the reading application stops at a seeded stream offset for a seeded time (1 ms .. 20 virtual minutes, so the window-probe back-off reaches its cap) while the writer keeps writing; receive window 1..64; with and without congestion control; every ACK-only / WASK / WINS datagram (chosen by the independent decoder) is lost during a seeded window covering the whole pause, its beginning, or the resumption. Oracles: stream prefix (nothing lost), receiver occupancy limits and sender backlog <= send window + one write while stalled, no previously unseen sn on the wire while the last window delivered to the sender is 0, and completion within an analytic budget after the reader has resumed and the targeted loss has ended. Non-trivial = the stall began, payload was delivered and a control datagram was dropped or a zero window was advertised; distinct = distinct event-log hashes",
+		Real: realSession, Stub: stubSession,
+		Assumptions: append([]string{"the completion budget is an analytic over-approximation (probe back-off cap, retransmission back-off, stop-and-wait allowance per segment)"}, assumeCommon...),
+		WantProbes:  []string{"reader-stalled", "zero-window-advertised", "sender-sees-zero-window", "wask-emitted", "wins-emitted", "wask-lost", "wins-lost", "control-datagram-drop", "stall-completed"},
+		nontrivial: func(r *proto.RunResult, nf int) bool {
+			return r.Progress && r.Probes["reader-stalled"] > 0 && (r.Faults["control-datagram-drop"] > 0 || r.Probes["zero-window-advertised"] > 0)
 		},
 	}
 }
